@@ -20,7 +20,7 @@ from datetime import datetime, timezone
 from time import time as stdlib_time
 from typing import Any, Generic, TypeVar
 from warnings import warn
-from weakref import ReferenceType, WeakKeyDictionary
+from weakref import ReferenceType
 
 from anyio import BrokenResourceError, WouldBlock, create_memory_object_stream
 from anyio.streams.memory import MemoryObjectSendStream
@@ -29,7 +29,9 @@ from ._exceptions import UnboundSignal
 from ._utils import qualified_name
 
 T_Event = TypeVar("T_Event", bound="Event")
-bound_signals = WeakKeyDictionary[Hashable, "dict[str, Signal[Any]]"]()
+# Bound signals of every live owner instance, keyed by the identity of the instance (not by
+# its equality/hash, so that instances that compare equal still get their own signals)
+bound_signals: dict[int, dict[str, Signal[Any]]] = {}
 
 
 class SignalQueueFull(UserWarning):
@@ -97,7 +99,14 @@ class Signal(Generic[T_Event]):
             return self
 
         # Each (instance, attribute) pair gets its own bound signal
-        instance_signals = bound_signals.setdefault(instance, {})
+        instance_signals = bound_signals.get(id(instance))
+        if instance_signals is None:
+            instance_signals = bound_signals[id(instance)] = {}
+            # Forget the bound signals when the instance is garbage collected
+            weakref.finalize(
+                instance, bound_signals.pop, id(instance), None
+            ).atexit = False
+
         try:
             return instance_signals[self._topic]
         except KeyError:
